@@ -1,0 +1,6 @@
+//go:build !verif
+
+package proxy
+
+// vfYield marks a schedule point for the verification harness (build tag `verif`). Without the tag it does nothing.
+func vfYield(string) {}
